@@ -67,6 +67,23 @@ func standardPhases(mons []string, suffix int, thorough bool) []Phase {
 		add("S2 static3, windows at seed positions 12,17,22, all sequences of length 2 over 12 actions", s2Items(w3, []int{12, 17, 22}, 2, n3, mons, suffix))
 		add("S2 join3to4, windows inside the activation window (positions 24,40), length 2 over 22 actions", s2Items(wj, []int{24, 40}, 2, n4, mons, suffix))
 	}
+	if mons[len(mons)-1] == "C02" {
+		// "starting where it began (0, or the block after a fast-sync anchor)": a validator that replays its
+		// database and then runs the fast-forward every fast-sync node runs after Init
+		var fb []sched.Item
+		for down := 10; down <= 60; down++ {
+			for _, gap := range []int{0, 12, 30} {
+				if gap > 0 && !thorough && down%4 != 0 {
+					continue
+				}
+				fb = append(fb, sched.Item{Scenario: fmt.Sprintf("ffboot:3:100:2:%d:%d:0", down, down+gap), Mode: "s3", Mons: []string{"C01ff", "C02"}, Suffix: suffix})
+				if thorough || down%4 == 0 {
+					fb = append(fb, sched.Item{Scenario: fmt.Sprintf("ffboot:4:100:3:%d:%d:0", down, down+gap), Mode: "s3", Mons: []string{"C01ff", "C02"}, Suffix: suffix})
+				}
+			}
+		}
+		add("a validator (2 of 3 / 3 of 4) on Badger with fast-sync enabled stops at d (d=10..60) and is restarted with bootstrap 0/12/30 steps later, then runs Node.fastForward (anchor behind, at or ahead of its own last block)", fb)
+	}
 	if !thorough {
 		d1 := func(label, sc string, n, from, stride, silent int) {
 			add(fmt.Sprintf("S3 d<=1 %s (every %d. position from %d, alphabet level 0%s)", label, stride, from, map[bool]string{true: ", one silent allowed", false: ""}[silent > 0]),
